@@ -134,6 +134,11 @@ func Text(r *rand.Rand, o TextOpts) (string, Classes) {
 		s = strings.Repeat("\n", k) + s
 		cl["leading-newlines"] = true
 	}
+	if r.IntN(40) == 0 {
+		// a value that starts with U+FEFF (the contents of a file saved "with BOM")
+		s = "\uFEFF" + s
+		cl["leading-byte-order-mark"] = true
+	}
 	if r.IntN(4) == 0 {
 		k := 1 + r.IntN(3)
 		s = s + strings.Repeat("\n", k)
